@@ -104,6 +104,28 @@ CHECKS["C09"] = {
     ],
 }
 
+CHECKS["C10"] = {
+    "pkg": "c10",
+    "level": "exploration",
+    "technique": "property-based testing of SendReqCtx against a rapid-scripted store client (fault scripts as generated input) with invariants over the recorded attempt trace; back-off sleeps virtualised",
+    "level_text": "Each case draws a fault script (<=12 scripted answers then a terminal behaviour), a command, a replica-read mode, selector options, liveness, forwarding, topology and budget, runs one real SendReqCtx and evaluates P1-P6 on the recorded attempts (target, flags, retry marker, accumulated sleep) and on the returned value (pointer identity with a scripted success). Thousands of scripts per run; sampling, not proof; termination is decided within a virtual budget (no wall-clock liveness claim).",
+    "level_note": "Trusted: fastBackoffBySkipSleep keeps the back-off accounting; injectLiveness replaces real liveness probes. Writes are generated with every replica-read type but never with the stale flag (no caller sets it and the statement does not cover it).",
+    "tests": [
+        {"name": "TestSendReq", "quick": 4000, "thorough": 40000, "shards": 16},
+    ],
+}
+
+CHECKS["C11"] = {
+    "pkg": "c11",
+    "level": "exploration",
+    "technique": "stateful property-based testing (rapid state machine) of the raw client against a sorted-map model, with topology faults injected between and inside calls through an RPC interposer",
+    "level_text": "Random sequences of all raw operations over boundary-heavy keys and 1-7 regions on 3 stores; splits, merges and leader transfers are drawn between calls and at a drawn request index inside a call; every result is compared with the ordered-map model (batch get positionally, scans as the first 'limit' pairs in order, delete-range as exactly [start,end), checksum recomputed), the interposer additionally checks key ownership of every accepted raw request, and a final full scan must equal the model. Sampling, not proof.",
+    "level_note": "Trusted: mocktikv's raw store as the data plane. TTL expiry is not modelled (the mock ignores TTL); key-only scans are compared on keys; an absent key in BatchGet may be nil or empty (the mock returns a pair with a nil value).",
+    "tests": [
+        {"name": "TestRawKVModel", "quick": 1200, "thorough": 12000, "shards": 16},
+    ],
+}
+
 # properties without a registered check, with the reason (kept current by hand)
 NOT_CLAIMED = {}
 
